@@ -51,3 +51,10 @@ Fixpoint failing_from (i : N) (l : list qcase) : list N :=
   | c :: l' => if outcome_eqb (run_case c) (c_out c) then failing_from (N.succ i) l' else i :: failing_from (N.succ i) l'
   end.
 Definition failing (l : list qcase) : list N := failing_from 0%N l.
+
+(** Boolean observers, so that statements evaluated by vm_compute are equalities at type [bool]
+    (an equality at type [res (qty F0)] would make vm_compute normalise the whole record [FA []]). *)
+Definition res_bool_is (r : res bool) (b : bool) : bool := match r with Ok x => Bool.eqb x b | Err _ => false end.
+Definition res_qty_is (r : res fq) (k : kind) (v : float) (u : string) : bool :=
+  match r with Ok q => kind_eqb (qk q) k && fbits_eq (qv q) v && String.eqb (qu q) u | Err _ => false end.
+Definition res_pyval_is (r : res (pyval F0)) (o : outcome) : bool := outcome_eqb (out_of r) o.
